@@ -195,6 +195,41 @@ pub fn catalogue_for_structure<V: Cv>(thorough: bool) -> Vec<StructureCase<V>> {
             push(Op::HashToCurve(2), "hash_to_curve[2]", ins);
         }
         _ => {
+            // k_out_of_n_points: the same circuit with selections at DIFFERENT table positions
+            // (first / middle / last entries; k = 1 selecting entry 0, 1, n-1; a second table)
+            let pool: Vec<RP> = vec![r1.clone(), r2.clone(), d1.clone(), g.clone(), s12.clone(), nr1.clone()];
+            let pool2: Vec<RP> = vec![g.clone(), c.neg(&r2), s12.clone(), r1.clone(), d1.clone(), r2.clone()];
+            let sizes: Vec<(usize, usize)> = if thorough { vec![(2, 1), (3, 1), (3, 2), (4, 2), (5, 3)] } else { vec![(3, 1), (4, 2)] };
+            for (n, k) in sizes {
+                let mk = |table: &[RP], sel: &[usize]| -> Vec<Val> { table.iter().map(pv).chain(sel.iter().map(|i| Val::H(table[*i].clone()))).collect() };
+                let mut subsets: Vec<Vec<usize>> = vec![];
+                let mut cur: Vec<usize> = (0..k).collect();
+                loop {
+                    subsets.push(cur.clone());
+                    let mut i = k;
+                    while i > 0 && cur[i - 1] == n - k + i - 1 {
+                        i -= 1;
+                    }
+                    if i == 0 {
+                        break;
+                    }
+                    cur[i - 1] += 1;
+                    for j in i..k {
+                        cur[j] = cur[j - 1] + 1;
+                    }
+                }
+                let mut ins: Vec<Vec<Val>> = subsets.iter().map(|s| mk(&pool[..n], s)).collect();
+                // the same selections on a second table (and, if still short, on rotations of it)
+                let mut rot = 0;
+                while ins.len() < 6 {
+                    let t: Vec<RP> = (0..n).map(|i| pool2[(i + rot) % pool2.len()].clone()).collect();
+                    for s in subsets.iter().rev() {
+                        ins.push(mk(&t, s));
+                    }
+                    rot += 1;
+                }
+                push(Op::KOutOfN { n, k }, &format!("k_out_of_n_points[{k} of {n}]"), ins);
+            }
             if thorough {
                 let n = nb + 2;
                 let ks: Vec<Big> = vec![Big::zero(), Big::one(), &r - 1u8, r.clone(), &r + 1u8, (Big::one() << n) - 1u8, k1.clone()];
